@@ -28,7 +28,7 @@ var (
 	poolDesc []string
 )
 
-const poolSize = 28
+const poolSize = 28 // generated programs; twins, zoo and tiny programs are added on top
 
 func buildPool() {
 	poolOnce.Do(func() {
@@ -56,6 +56,45 @@ func buildPool() {
 			if _, ok := asm.FreshProcessBytes(src); ok {
 				pool = append(pool, src)
 				poolDesc = append(poolDesc, desc)
+			}
+		}
+		add := func(src, desc string) {
+			if _, ok := asm.FreshProcessBytes(src); ok {
+				pool = append(pool, src)
+				poolDesc = append(poolDesc, desc)
+			}
+		}
+		// twins: the same statements under BITS 16 and under BITS 32 (state keyed on the statement
+		// text alone would leak from one into the other)
+		for i := 0; i < 6; i++ {
+			p := labelGen.Example(5000 + i)
+			for _, m := range []int{16, 32} {
+				q := p
+				q.Mode = m
+				add(q.Source(), fmt.Sprintf("twin-%d", m))
+			}
+		}
+		// spelling zoo: constant terms in every position of memory operands and expressions, accumulator
+		// moves with direct and with indirect addresses (anything that rewrites the tree or caches a
+		// lookup under too coarse a key shows up when these are re-assembled or interleaved)
+		add("[BITS 32]\nzq\tEQU\t4\n\tMOV EAX,[EBX-4+ESI]\n\tMOV ECX,[4+EBX]\n\tMOV EDX,[EBX+ESI*2-8+4]\n\tMOV AL,[0x1234]\n\tMOV [0x1234],EAX\n\tADD EAX,zq*2-1\n\tMOV AX,[BX-2+SI]\n\tCMP AL,0xfa\nzl:\n\tDD zl-1+2,zq/2\n", "zoo-a")
+		add("[BITS 32]\nzq\tEQU\t9\n\tMOV EAX,[ESI-4+EBX]\n\tMOV ECX,[EBX+4]\n\tMOV AL,[ESI]\n\tMOV [EDI],EAX\n\tMOV AX,[SI]\n\tADD EAX,1-zq*2\n\tMOV AX,[BX+SI-2]\n\tCMP AL,0x7a\nzl:\n\tDD 2+zl-1,zq%2\n", "zoo-b")
+		add("\tMOV AL,[0x1234]\n\tMOV AX,[0x1234]\n\tMOV [0x0ff0],AL\n\tMOV AL,[SI]\n\tMOV AX,[BX]\n\tMOV [DI],AL\n\tMOV AX,[BX-2+SI]\nzl:\n\tDW zl\n", "zoo-c")
+		// tiny programs: one catalogue statement, a label after it, both modes
+		ntiny := 20
+		if tier() == "thorough" {
+			ntiny = 150
+		}
+		stmtGen := rapid.Custom(func(t *rapid.T) string {
+			text, _ := genPlainStmt(t, 0, false)
+			return text
+		})
+		for i := 0; i < ntiny; i++ {
+			text := stmtGen.Example(7000 + i)
+			for _, m := range []int{16, 32} {
+				if accepts(m, text) {
+					add(fmt.Sprintf("[BITS %d]\n\t%s\nzt:\n\tDD zt\n", m, text), fmt.Sprintf("tiny-%d", m))
+				}
 			}
 		}
 		// one program with many symbols, where map iteration order would show
@@ -207,7 +246,7 @@ var propC10 = &Prop[HistCase]{
 				k = "inproc"
 			}
 			// small program indices repeat often
-			c.Actions = append(c.Actions, HistAction{Kind: k, Prog: rapid.IntRange(0, poolSize).Draw(t, "prog")})
+			c.Actions = append(c.Actions, HistAction{Kind: k, Prog: rapid.IntRange(0, 400).Draw(t, "prog")})
 		}
 		return c
 	},
